@@ -21,6 +21,7 @@ const (
 type Type struct {
 	T    byte
 	Bin  bool // STRING declared as "binary"
+	TD   string // when set, the type is spelled through `typedef <base> <TD>`
 	Elem *Type
 	Key  *Type
 	S    *StructT
@@ -67,6 +68,13 @@ type Schema struct {
 }
 
 func (t *Type) String() string {
+	if t.TD != "" {
+		return t.TD
+	}
+	return t.base()
+}
+
+func (t *Type) base() string {
 	switch t.T {
 	case tref.BOOL:
 		return "bool"
@@ -122,6 +130,34 @@ func idlDefault(v *tref.Val) string {
 func (s *Schema) IDL() string {
 	var sb strings.Builder
 	sb.WriteString("namespace go verif\n\n")
+	tds := map[string]string{}
+	var collect func(t *Type)
+	collect = func(t *Type) {
+		if t == nil {
+			return
+		}
+		if t.TD != "" {
+			tds[t.TD] = t.base()
+		}
+		collect(t.Elem)
+		collect(t.Key)
+	}
+	for _, st := range s.Structs {
+		for _, f := range st.Fields {
+			collect(f.T)
+		}
+	}
+	var tdn []string
+	for n := range tds {
+		tdn = append(tdn, n)
+	}
+	sort.Strings(tdn)
+	for _, n := range tdn {
+		fmt.Fprintf(&sb, "typedef %s %s\n", tds[n], n)
+	}
+	if len(tdn) > 0 {
+		sb.WriteString("\n")
+	}
 	for _, st := range s.Structs {
 		fmt.Fprintf(&sb, "struct %s {\n", st.Name)
 		for _, f := range st.Fields {
@@ -169,6 +205,7 @@ type Cfg struct {
 	Aliases      bool // api.key aliases on some fields
 	NoBinary     bool // never declare binary
 	NoSet        bool
+	Typedefs     bool // spell some scalar types through typedefs (incl. aliases of binary and of string)
 }
 
 var scalarTypes = []byte{tref.BOOL, tref.BYTE, tref.I16, tref.I32, tref.I64, tref.DOUBLE, tref.STRING}
@@ -185,6 +222,21 @@ func (g *sgen) scalar() *Type {
 	ty := &Type{T: t}
 	if t == tref.STRING && !g.cfg.NoBinary && g.r.Chance(25) {
 		ty.Bin = true
+	}
+	if g.cfg.Typedefs && g.r.Chance(30) {
+		switch {
+		case ty.Bin:
+			ty.TD = []string{"Blob", "binaryAlias"}[g.r.Intn(2)]
+		case t == tref.STRING:
+			// an alias of string whose name begins like the build-in binary type
+			ty.TD = []string{"Text", "binary_label"}[g.r.Intn(2)]
+		case t == tref.I64:
+			ty.TD = "UserID"
+		case t == tref.I32:
+			ty.TD = "Count"
+		case t == tref.DOUBLE:
+			ty.TD = "Ratio"
+		}
 	}
 	return ty
 }
